@@ -10,7 +10,10 @@
                  FirstLetterOf and GetTypeForName are mutually inverse on the 8 kinds and IsNameCorrect accepts exactly those letters.
  r5 REGISTRY     RegisterID / RegisterEntity / GenerateNewID leave both the identifier and the alias registered on every path;
                  NewNameFor registers the name it returns; TryAlias frees the old and registers the new alias together.
-Not decided: list order after arbitrary MoveBefore sequences beyond the priority table (needs values).
+ r10 RENUMBER-FAITHFUL (shared C13 r8)  ResetAliases interpreted on schemas with gaps.
+ r11 LIST-GROUPED  CstList::MoveBefore / Insert interpreted on every grouped list of up to four constituents: an accepted move or an insertion
+                 leaves a grouped permutation, a refusal leaves the list alone (inductive: every history keeps base < constant < structure < derived).
+Not decided: uniqueness of random identifiers beyond the evaluated generator.
 """
 from engine.cfgq import call_sites, paths_avoiding, success_exits, guard_atoms, enumerate_paths, describe_pos
 from engine.evalmini import Interp, OutOfFragment, enum_values
